@@ -164,7 +164,7 @@ type fileCmtCase struct {
 }
 
 var fileCmtTexts = []string{"plain text", "", " ", "Package p does things.", "multi\nline text", "trailing newline\n", "code: x := y{", "} else {", "\"quotes\" `and` 'more'", "日本語 ünï", "a\n\nparagraph break", "func main() {", "\\ backslash", "tab\there", "x // y", "\nleading newline", "- list item\n- another", "# heading", "Deprecated: no", "\t indented", "100%", "import \"x\"", " /* TODO", "  // a\nb := c", "keep a\rb := 1", "crlf\r\nsecond"}
-var canonPaths = []string{"", "a.b/c", "example.com/x/y", "weird \"quoted\" path", "日本/パス", "back\\slash", "new\nline", "tab\tpath", "`backquote`", "a.b/c // x", "a.b/c */ x"}
+var canonPaths = []string{"", "a.b/c", "example.com/x/y", "weird \"quoted\" path", "日本/パス", "back\\slash", "new\nline", "tab\tpath", "`backquote`", "a.b/c // x", "a.b/c */ x", "example.com/app/vendor/github.com/pkg/errors", "vendor/golang.org/x/net", "a.b/internal/c/", "A.B/C"}
 
 func genFileCmt(rnd *rand.Rand) fileCmtCase {
 	fc := fileCmtCase{Body: rnd.Intn(4), NoFormat: rnd.Intn(4) == 0, Imports: rnd.Intn(2) == 0}
